@@ -13,6 +13,7 @@
 #include "Archive/ClmFile.h"
 #include <memory>
 #include <unistd.h>
+#include <fcntl.h>
 #include <set>
 #include <functional>
 
@@ -552,6 +553,81 @@ void jointCase(std::size_t which, Ctx& ctx)
 }
 
 // ------------------------------------------------------------------------------------------------
+// (b') a file larger than 4 GiB (sparse): positions, slices and nested slices around 2^31 and 2^32
+// ------------------------------------------------------------------------------------------------
+void largeFileCase(Ctx& ctx)
+{
+	std::string dir = ctx.freshDir("c13big");
+	std::string path = dir + "/big.bin";
+	const uint64_t G2 = 0x80000000ull, G4 = 0x100000000ull, size = G4 + 64;
+	auto byteAt = [&](uint64_t x) -> uint8_t {   // marked regions of 32 bytes around 2^31, 2^32 and at both ends; zero elsewhere
+		for (uint64_t c : { uint64_t(16), G2, G4, size - 16 }) if (x + 16 >= c && x < c + 16) return uint8_t(0x40 + (x * 7 + (c >> 28)) % 0xB0);
+		return 0;
+	};
+	{
+		int fd = ::open(path.c_str(), O_CREAT | O_TRUNC | O_WRONLY, 0644);
+		if (fd < 0 || ::ftruncate(fd, off_t(size)) != 0) std::abort();
+		for (uint64_t c : { uint64_t(16), G2, G4, size - 16 }) { uint8_t b[32]; for (int i = 0; i < 32; ++i) b[i] = byteAt(c - 16 + uint64_t(i)); if (::pwrite(fd, b, 32, off_t(c - 16)) != 32) std::abort(); }
+		::close(fd);
+	}
+	const std::vector<uint64_t> P = { 0, 14, G2 - 3, G2, G2 + 5, G4 - 3, G4 - 1, G4, G4 + 1, G4 + 9, size - 4, size };
+	auto bad = [&](const std::string& clause, const std::string& key, const std::string& d) { ctx.violation("C13/large-file/" + clause, key, d); };
+	// checks reader r against the window [base, base+len) of the file
+	std::function<bool(Stream::BidirectionalReader&, uint64_t, uint64_t, const std::string&, bool)> window = [&](Stream::BidirectionalReader& r, uint64_t base, uint64_t len, const std::string& key, bool boundsChecked) {
+		auto o = mc::guarded([&] {
+			if (r.Length() != len) throw std::runtime_error("Length() " + std::to_string(r.Length()) + " expected " + std::to_string(len));
+			for (uint64_t p : P) {
+				if (p < base || p - base > len) continue;
+				uint64_t q = p - base;
+				r.Seek(q);
+				if (r.Position() != q) throw std::runtime_error("Position() after Seek(" + std::to_string(q) + ") is " + std::to_string(r.Position()));
+				uint8_t b[4] = { 0, 0, 0, 0 };
+				std::size_t want = std::size_t(std::min<uint64_t>(4, len - q));
+				std::size_t got = r.ReadPartial(b, 4);
+				ctx.transition();
+				if (got != want) throw std::runtime_error("ReadPartial(4) at " + std::to_string(q) + " delivered " + std::to_string(got));
+				for (std::size_t i = 0; i < got; ++i) if (b[i] != byteAt(p + i)) throw std::runtime_error("byte at file offset " + std::to_string(p + i) + " read as " + std::to_string(b[i]));
+				if (r.Position() != q + got) throw std::runtime_error("Position() after reading at " + std::to_string(q));
+				if (q >= 3) { r.Seek(q); r.SeekBackward(3); if (r.Position() != q - 3) throw std::runtime_error("SeekBackward(3) from " + std::to_string(q)); r.SeekForward(3); if (r.Position() != q) throw std::runtime_error("SeekForward(3) to " + std::to_string(q)); }
+			}
+			// relative seeks across both boundaries in one step
+			if (len > G4 - G2 + 10) { r.Seek(0); r.SeekForward(len - 1); if (r.Position() != len - 1) throw std::runtime_error("SeekForward(len-1)"); r.SeekBackward(len - 1); if (r.Position() != 0) throw std::runtime_error("SeekBackward(len-1)"); }
+		});
+		if (o.cls != 'R') { bad("window", key, o.what); return false; }
+		if (boundsChecked && mc::guarded([&] { r.Seek(len + 1); }).cls == 'R') { bad("seek-past-the-end-accepted", key, ""); return false; }   // a plain FileReader does not promise bounds checks
+		ctx.count("large-file/windows");
+		return true;
+	};
+	auto o = mc::guarded([&] {
+		Stream::FileReader fr(path);
+		if (!window(fr, 0, size, "FileReader over 4 GiB + 64 bytes", false)) return;
+		for (uint64_t start : P) for (uint64_t len : { uint64_t(0), uint64_t(4), G2 + 7, size - start, size - start + 1 }) {
+			std::string key = "Slice(" + std::to_string(start) + ", " + std::to_string(len) + ")";
+			ctx.sub("large file " + key);
+			bool contained = len <= size - start;
+			std::unique_ptr<Stream::FileSliceReader> sl;
+			auto os = mc::guarded([&] { sl = std::make_unique<Stream::FileSliceReader>(fr.Slice(start, len)); });
+			ctx.transition();
+			if (contained != (os.cls == 'R')) { bad(contained ? "contained-slice-refused" : "uncontained-slice-accepted", key, os.what); return; }
+			if (!contained) continue;
+			if (!window(*sl, start, len, key, true)) return;
+			// a nested slice that again crosses a boundary, and one made at the current position
+			if (len >= 12) {
+				std::unique_ptr<Stream::FileSliceReader> in;
+				auto on = mc::guarded([&] { in = std::make_unique<Stream::FileSliceReader>(sl->Slice(3, len - 5)); });
+				if (on.cls != 'R') { bad("nested-slice-refused", key + ".Slice(3, len-5)", on.what); return; }
+				if (!window(*in, start + 3, len - 5, key + ".Slice(3, len-5)", true)) return;
+				auto oh = mc::guarded([&] { sl->Seek(len - 6); auto here = sl->Slice(4); if (sl->Position() != len - 2) throw std::runtime_error("parent not advanced by 4"); Stream::FileSliceReader h2(here); if (!window(h2, start + len - 6, 4, key + " Slice(4) at len-6", true)) throw std::runtime_error("window"); });
+				if (oh.cls != 'R') { bad("slice-at-position", key, oh.what); return; }
+			}
+		}
+	});
+	if (o.cls != 'R') bad("throws", "big.bin", o.what);
+	ctx.state(); ctx.trace();
+	mc::removeTree(dir);
+}
+
+// ------------------------------------------------------------------------------------------------
 // (c) backend equivalence: the same in-bounds history on five backends, observations identical
 // ------------------------------------------------------------------------------------------------
 struct EqOp { int kind; uint64_t a; };
@@ -666,13 +742,14 @@ void equivCase(std::size_t which, Ctx& ctx)
 	mc::removeTree(dir);
 }
 
-std::size_t kGrid = 12; const std::size_t kJoint = 6, kEquiv = 4;
+std::size_t kGrid = 12; const std::size_t kJoint = 6, kEquiv = 4, kLarge = 1;
 
 void runCase(std::size_t i, Ctx& ctx)
 {
 	if (i < kGrid) gridCase(i, ctx);
 	else if (i < kGrid + kJoint) jointCase(i - kGrid, ctx);
-	else equivCase(i - kGrid - kJoint, ctx);
+	else if (i < kGrid + kJoint + kEquiv) equivCase(i - kGrid - kJoint, ctx);
+	else largeFileCase(ctx);
 	if (peek::usedFallback()) ctx.count("binding/fallback-keys");
 }
 
@@ -683,9 +760,10 @@ int main(int argc, char** argv)
 	mc::CheckDef def;
 	def.id = "C13";
 	def.init = [](Ctx& c) { gGridLens = c.thorough ? 7 : 4; kGrid = 3 * gGridLens; };
-	def.ncases = [](Ctx&) { return kGrid + kJoint + kEquiv; };
+	def.ncases = [](Ctx&) { return kGrid + kJoint + kEquiv + kLarge; };
 	def.run = runCase;
-	def.describe = [](std::size_t i) { return i < kGrid ? "construction grid " + std::to_string(i) : i < kGrid + kJoint ? "interleaving " + std::to_string(i - kGrid) : "equivalence " + std::to_string(i - kGrid - kJoint); };
+	def.describe = [](std::size_t i) { return i < kGrid ? "construction grid " + std::to_string(i) : i < kGrid + kJoint ? "interleaving " + std::to_string(i - kGrid) : i < kGrid + kJoint + kEquiv ? "equivalence " + std::to_string(i - kGrid - kJoint) : std::string("file larger than 4 GiB"); };
 	def.caseTimeoutS = 600;
+	def.fsizeLimit = std::size_t(5) << 30;   // the sparse file of 4 GiB + 64 bytes
 	return mc::Main(argc, argv, def);
 }
